@@ -203,6 +203,7 @@ func init() {
 	delete(intrinsics, "github.com/iotaledger/hive.go/lo.IsNil")
 	registerAtomics()
 	registerHash()
+	registerReflect()
 	registerTime()
 }
 
